@@ -251,3 +251,22 @@ Print Assumptions C06_open_fn_is_the_translated_C.
 Theorem C06_close_fn_is_the_translated_C : forall d w, run_oc d fn_close w = Some (close_fn d w).
 Proof. exact skel_close. Qed.
 Print Assumptions C06_close_fn_is_the_translated_C.
+
+(* ------------------------------------------------------------------ tie by translation: barectf_init *)
+(* <prefix>init as REGENERATED from barectf.c.j2 (tools/c2coq.py -> fn_init) sets every field of the context
+   to the value Model.init_ctx has - position 0, both counters 0, packet closed, flag 0, tracing enabled -
+   EXCEPT content_size / off_content, which it leaves untouched (S10: "sequences the documentation allows"
+   open the first packet before anything reads them); on zero-filled context memory it IS Model.init_ctx. *)
+From BT.Tracer Require Import CSkelInit.
+Theorem C06_init_is_the_translated_C :
+  forall bytes c,
+    i_run bytes (cf_body fn_init) c =
+    Some (mk_ctx (zeros (8 * bytes)) (8 * bytes) 0 (c_content c) (c_off_content c) 0 0 false false true false
+                 (c_last_ts c) (c_saved c)).
+Proof. exact skel_init. Qed.
+Print Assumptions C06_init_is_the_translated_C.
+Theorem C06_init_on_zeroed_memory :
+  forall bytes c, c_content c = 0 -> c_off_content c = 0 -> c_last_ts c = 0%Z -> c_saved c = [] ->
+    i_run bytes (cf_body fn_init) c = Some (init_ctx bytes).
+Proof. exact skel_init_zeroed. Qed.
+Print Assumptions C06_init_on_zeroed_memory.
